@@ -225,31 +225,48 @@ def _comp(t, T):
     from periodictable import nsf
     mats = [build(e, T) for e in t["materials"]]
     ws = t["weights"]
-    rho = t["density"]
     lam = t["wavelength"]
     vec = isinstance(lam, list)
     calc = nsf.neutron_composite_sld(mats, wavelength=np.array(lam) if vec else lam)
-    res = calc(np.array(ws, dtype=float), density=rho)
     lams = lam if vec else [lam]
-    # direct calculation on the weighted sum
-    total = None
-    for w, m in zip(ws, mats):
-        total = (w * m) if total is None else total + (w * m)
     evs = []
-    shape_ok = all(np.shape(x) == ((len(lam),) if vec else ()) for x in res)
-    for i, L in enumerate(lams):
-        if sum(ws) > 0 and rho > 0:
-            d = P.neutron_sld(total, density=rho, wavelength=L)
-            if d is None or d[0] is None:
-                d = (None, None, None)
-        else:
-            d = (0.0, 0.0, 0.0)
-        pick = (lambda x: x[i]) if vec else (lambda x: x)
-        evs.append({"ev": "comp", "id": "%s#%d" % (t["id"], i), "rho": dec.to_dec(rho), "lam": dec.to_dec(L),
-                    "mats": [{"w": dec.to_dec(w), "ps": parts_of(m)} for w, m in zip(ws, mats)],
-                    "comp": {"re": dec.enc(pick(res[0])), "im": dec.enc(pick(res[1])), "inc": dec.enc(pick(res[2]))},
-                    "direct": {"re": dec.enc(d[0]), "im": dec.enc(d[1]), "inc": dec.enc(d[2])} if d[0] is not None else {"re": {"k": "none"}, "im": {"k": "none"}, "inc": {"k": "none"}},
-                    "shape_ok": bool(shape_ok)})
+
+    def call(tag, ws, rho):
+        """one call of the calculator -> one event per wavelength (values copied out before anything else happens)"""
+        res = calc(np.array(ws, dtype=float), density=rho)
+        # direct calculation on the weighted sum
+        total = None
+        for w, m in zip(ws, mats):
+            total = (w * m) if total is None else total + (w * m)
+        shape_ok = all(np.shape(x) == ((len(lam),) if vec else ()) for x in res)
+        for i, L in enumerate(lams):
+            if sum(ws) > 0 and rho > 0:
+                d = P.neutron_sld(total, density=rho, wavelength=L)
+                if d is None or d[0] is None:
+                    d = (None, None, None)
+            else:
+                d = (0.0, 0.0, 0.0)
+            pick = (lambda x: x[i]) if vec else (lambda x: x)
+            evs.append({"ev": "comp", "id": "%s%s#%d" % (t["id"], tag, i), "rho": dec.to_dec(rho), "lam": dec.to_dec(L),
+                        "mats": [{"w": dec.to_dec(w), "ps": parts_of(m)} for w, m in zip(ws, mats)],
+                        "comp": {"re": dec.enc(pick(res[0])), "im": dec.enc(pick(res[1])), "inc": dec.enc(pick(res[2]))},
+                        "direct": {"re": dec.enc(d[0]), "im": dec.enc(d[1]), "inc": dec.enc(d[2])} if d[0] is not None else {"re": {"k": "none"}, "im": {"k": "none"}, "inc": {"k": "none"}},
+                        "shape_ok": bool(shape_ok)})
+        return res
+
+    def scribble(res):
+        """what a caller may do with arrays it was handed: accumulate into them in place"""
+        for x in res:
+            if isinstance(x, np.ndarray) and x.ndim > 0:
+                x += 8.72
+    res = call("", ws, t["density"])
+    if t.get("again"):
+        # the same calculator used again after the caller has written into earlier results
+        scribble(res)
+        scribble(call(":z", ws, 0.0))
+        scribble(call(":zz", [0.0 for _ in ws], t["density"]))
+        call(":z3", ws, 0.0)
+        call(":r", ws, t["density"])
     return evs
 
 
